@@ -204,6 +204,29 @@ func c01Run(c *engine.Ctx) {
 		c.Sample(map[string]any{"program": `def f: "out"; . as {(def f: "in"; "a"): $x} | [f, $x]`, "forms": len(forms), "definitions": len(defs)})
 	}
 
+	// optional bracket forms t[k]?, t[a:b]? (compiled as bindings of the keys around a try): the same enumeration order and
+	// the same errors as the plain forms, with the error of the access itself suppressed
+	c.Sub("optional-brackets")
+	if c.MineIdx(8) {
+		keys := []string{"(0, 1)", "(1, 0)", "0", `("a", "b")`, `error("k")`, "empty", "(0, \"a\")", ".i", "(.[0]?, 1)", "null", "{}", "(1, error(\"k2\"), 0)"}
+		subjects := []string{".", ".a", "(., .a)", "[range(5)]", `"abcde"`, "(.a, [7, 8])"}
+		oi := 0
+		for _, t := range subjects {
+			for _, a := range keys {
+				compareProgram(c, fmt.Sprintf("[%s[%s]?]", t, a), []any{univ.J(`[1,2,3]`), univ.J(`{"a":[4,5,6],"i":1,"b":2}`), nil, 7}, nil)
+				compareProgram(c, fmt.Sprintf("[%s[%s:]?], [%s[:%s]?]", t, a, t, a), []any{univ.J(`[1,2,3]`), univ.J(`{"a":[4,5,6],"i":1}`)}, nil)
+				for _, b := range keys {
+					oi++
+					compareProgram(c, fmt.Sprintf("[%s[%s:%s]?]", t, a, b), []any{univ.J(`[1,2,3]`), univ.J(`{"a":[4,5,6],"i":1}`), nil}, nil)
+					if oi%5 == 0 {
+						compareProgram(c, fmt.Sprintf("[%s[%s]?[%s]?], [try %s[%s:%s] catch \"c\"]", t, a, b, t, a, b), []any{univ.J(`[[1,2],3]`), univ.J(`{"a":[[4],5],"i":0}`)}, nil)
+					}
+				}
+			}
+		}
+		c.Sample(map[string]any{"program": "[[range(5)][(0, 1):(3, 4)]?]", "keys": len(keys), "subjects": len(subjects)})
+	}
+
 	// halt and halt_error stop the program: nothing intercepts them (try, ?, //, ?//, label, first, reduce, paths)
 	c.Sub("halt-passes")
 	if c.MineIdx(6) {
